@@ -45,6 +45,7 @@ def step (s : State) (args : List String) : State × String :=
   | ["recalc"] => go .recalculateAll
   | ["report"] => (s, s!"{showReport s.st}\t{showSpec s.st}")
   | "freshimpl" :: _ => (s, "skip\t1")
+  | "structvalid" :: _ => (s, "skip\t1")
   | _ => (s, "bad-op\tn/a")
 
 end Driver.C11
